@@ -266,4 +266,56 @@ Definition spec_deliver (add : V -> V -> V) (ς : sstate) (ta : nat) (rshape : l
 Fixpoint map2 {A B C} (f : A -> B -> C) (a : list A) (b : list B) : list C :=
   match a, b with x :: a', y :: b' => f x y :: map2 f a' b' | _, _ => [] end.
 
+(* --- reductions (C08): fold the logical elements along a set of axes; the reduced axes are
+   removed; a scalar when all are reduced --- *)
+Definition insert_coord (axes : list Z) (outer inner : list Z) : list Z :=
+  (* rebuild a full coordinate: positions in [axes] (sorted) take [inner] in order, the others [outer] *)
+  let fix go (i : Z) (n : nat) (outer inner : list Z) : list Z :=
+      match n with
+      | O => []
+      | S n' =>
+        if existsb (Z.eqb i) axes then
+          match inner with x :: inner' => x :: go (i + 1) n' outer inner' | [] => 0 :: go (i + 1) n' outer [] end
+        else
+          match outer with x :: outer' => x :: go (i + 1) n' outer' inner | [] => 0 :: go (i + 1) n' [] inner end
+      end in
+  go 0 (length outer + length inner)%nat outer inner.
+
+Definition spec_reduce_vals (f : V -> V -> V) (from_zero : bool) (ς : sstate) (x : sten) (axes : list Z)
+  : list Z * list (option V) :=
+  let sh := s_shape x in
+  let dims := zseq 0 (length sh) in
+  let outer_sh := map (fun i => znth 0 sh i) (filter (fun i => negb (existsb (Z.eqb i) axes)) dims) in
+  let inner_sh := map (fun i => znth 0 sh i) (filter (fun i => existsb (Z.eqb i) axes) dims) in
+  let val c := nth (nth (Z.to_nat (rank_rm sh c)) (s_cells x) O) (s_vals ς) vzero in
+  (outer_sh,
+   map (fun oc =>
+          let vs := map (fun ic => val (insert_coord axes oc ic)) (coords inner_sh) in
+          if from_zero then Some (fold_left f vs vzero)
+          else match vs with [] => None | v :: r => Some (fold_left f r v) end)
+       (coords outer_sh)).
+
+Fixpoint nodup_z (l : list Z) : bool :=
+  match l with [] => true | x :: r => negb (existsb (Z.eqb x) r) && nodup_z r end.
+
+(* arg-reduction along one axis: first index of the extreme value *)
+Definition spec_arg_vals (better : V -> V -> bool) (ς : sstate) (x : sten) (axis : Z) : list Z * list Z :=
+  let sh := s_shape x in
+  let dims := zseq 0 (length sh) in
+  let outer_sh := map (fun i => znth 0 sh i) (filter (fun i => negb (i =? axis)) dims) in
+  let n := znth 0 sh axis in
+  let val c := nth (nth (Z.to_nat (rank_rm sh c)) (s_cells x) O) (s_vals ς) vzero in
+  (outer_sh,
+   map (fun oc =>
+          let vs := map (fun k => val (insert_coord [axis] oc [k])) (zseq 0 (Z.to_nat n)) in
+          match vs with
+          | [] => 0
+          | v :: r =>
+            snd (fold_left (fun (acc : V * Z * Z) y =>
+                              let '(best, i, bi) := acc in
+                              if better y best then (y, i + 1, i) else (best, i + 1, bi))
+                           r (v, 1, 0))
+          end)
+       (coords outer_sh)).
+
 End Spec.
